@@ -2,7 +2,9 @@ package harness
 
 import (
 	"bytes"
+	"context"
 	"fmt"
+	"net"
 	"sync"
 	"testing"
 
@@ -37,6 +39,12 @@ type c03Case struct {
 	// number 1, on the same session id ("same-session") or another one ("other-session"): whatever the
 	// side under test keeps from it must not leak into the pad of the packet that is judged
 	Warm string `json:"warm,omitempty"`
+	// Neighbour (server directions): the secret provider hands out keys that are slices of one buffer
+	// (as a keychain that reads all keys into one allocation does): this key for the connection that is
+	// judged and, directly in front of it in the buffer, the Neighbour key for another connection, on
+	// which a complete exchange takes place first.  The library may read the keys it is given; what it
+	// does with the memory behind them must not change the pad of anybody else
+	Neighbour model.B `json:"neighbour,omitempty"`
 }
 
 // warm returns header and cleartext of the warm-up request (an empty CONTINUE-shaped body).
@@ -136,6 +144,9 @@ func genC03(t *rapid.T) c03Case {
 		c.Via = rapid.SampledFrom([]string{"send", "send-only"}).Draw(t, "via")
 	}
 	c.Warm = rapid.SampledFrom([]string{"", "", "same-session", "same-session", "other-session"}).Draw(t, "warm_up")
+	if (c.Dir == "server-read" || c.Dir == "server-write") && len(c.Secret) > 0 && rapid.IntRange(0, 3).Draw(t, "keys_in_one_buffer") == 0 {
+		c.Neighbour = genSecret(t, "neighbour_key")
+	}
 	c.PeerSecret = c.Secret
 	if c.Flags&model.FlagUnencrypted != 0 && rapid.Bool().Draw(t, "different_peer_secret") {
 		c.PeerSecret = genSecret(t, "peer_secret")
@@ -145,6 +156,20 @@ func genC03(t *rapid.T) c03Case {
 
 func c03NonTrivial(c c03Case) bool {
 	return (c.N > 16 && c.N%16 != 0) || c.N >= 4096 || (c.Flags&model.FlagUnencrypted != 0 && !bytes.Equal(c.Secret, c.PeerSecret))
+}
+
+// carvedSP serves the connection from 192.0.2.77 with one key and everybody else with another; both are
+// slices of one buffer, the first directly in front of the second.
+type carvedSP struct {
+	first, second  []byte
+	handler, other tq.Handler
+}
+
+func (s carvedSP) Get(ctx context.Context, remote net.Addr) ([]byte, tq.Handler, error) {
+	if a, ok := remote.(*net.TCPAddr); ok && a.Port == 40077 {
+		return s.first, s.other, nil
+	}
+	return s.second, s.handler, nil
 }
 
 func nonNil(b []byte) []byte {
@@ -170,7 +195,30 @@ func runC03(t failer, c c03Case) {
 			replyClear = clear
 			rh.reply = func(resp tq.Response, req tq.Request) { _, _ = resp.Reply(rawED{replyClear}) }
 		}
-		srv := startServer(nopLogger{}, staticSP{secret: nonNil(c.Secret), handler: rh})
+		var sp tq.SecretProvider = staticSP{secret: nonNil(c.Secret), handler: rh}
+		if len(c.Neighbour) > 0 {
+			ev.Class("keys-carved-from-one-buffer")
+			buf := append(append(append([]byte{}, c.Neighbour...), c.Secret...), 0xa5, 0xa5, 0xa5, 0xa5)
+			sp = carvedSP{first: buf[:len(c.Neighbour)], second: buf[len(c.Neighbour) : len(c.Neighbour)+len(c.Secret)], handler: rh, other: tq.HandlerFunc(func(resp tq.Response, req tq.Request) {
+				_, _ = resp.Reply(rawED{[]byte{0, 0, 0, 0, 0, 0}})
+			})}
+		}
+		srv := startServer(nopLogger{}, sp)
+		if len(c.Neighbour) > 0 {
+			// the neighbour's connection: one complete exchange under its own key
+			nc, err := srv.connect(&net.TCPAddr{IP: net.IPv4(192, 0, 2, 77), Port: 40077})
+			if err != nil {
+				t.Fatalf("%v", err)
+			}
+			nd := &connDriver{c: nc}
+			npk, _, _, err := nd.send(model.Frame(c.Neighbour, model.Header{Version: 0xc1, Type: model.TypeAuthen, Seq: 1, Session: c.Session ^ 0x55}, []byte{0, 0, 0, 0, 0}))
+			if err != nil {
+				t.Fatalf("%v", err)
+			}
+			if len(npk) != 1 {
+				fail("neighbour-not-served", "the exchange on the neighbour connection (a well-formed packet under its own key) got %d replies", len(npk))
+			}
+		}
 		conn, err := srv.connect(nil)
 		if err != nil {
 			t.Fatalf("%v", err)
